@@ -301,6 +301,23 @@ fn check_text(ctx: &Ctx, ws: &mut Workers, c: &TextCase, counting: bool) -> Prop
         ctx.stats.engine_runs.fetch_add(1, std::sync::atomic::Ordering::Relaxed);
         match judge_usable("c07a", &r, inputs, &shown, &cfg) {
             Ok(true) => {
+                // an unwinding case wrapped in a catch-all handler: every body raises, so the handler's value is
+                // the value of the form (C08's clause "a raised error reaches the nearest enclosing handler", checked
+                // here because these bodies use forms the reference interpreter does not model)
+                if let TextCase::Unwind { text } = c {
+                    if text.starts_with("(with-handler (lambda (err) 'caught) ") && text.matches("with-handler").count() == 1 && !text.contains("call-with-exception-handler") && !text.contains("(raise ") && !text.contains("((lambda (x) x))") {
+                        // (`raise` is unbound and the immediately applied lambda's arity is checked statically: those
+                        // two bodies are rejected at compile time, before any handler exists)
+                        let st = &r.steps[1];
+                        let caught = st.outcome == Outcome::Ok && st.values.iter().any(|v| v == "y:\"caught\"");
+                        if !caught {
+                            return Err(Failure::new(
+                                "c07a:handler-skipped",
+                                format!("config: {}\ninput:\n{}\nthe enclosing handler's value 'caught was expected, got {:?} {} {} {:?}", cfg.label(), text, st.outcome, st.err_kind, st.err_msg, st.values),
+                            ));
+                        }
+                    }
+                }
                 if counting && cfg.0.is_empty() {
                     let st = &r.steps[1];
                     let class = match st.outcome {
